@@ -281,7 +281,13 @@ pub assume_specification<T, U>[Option::<T>::and::<U>](a: Option<T>, b: Option<U>
         assert(in_q(q@, state_id as int));
         lemma_lm_get(n0, *self, q@, state_id as int);
         let f = self.states@[state_id as int].fail as int;
+        if f != 1 { lemma_link_facts(n0, state_id as int, f); }
         if f >= 2 { lemma_shallow_in_q(n0, q@, qi - 1, ps, f); }
+        if f != 1 {
+            assert forall|r: int| #[trigger] nd_ok(n0, f, c, r) implies fail_ok(n0, child_id as int, r) by {
+                lemma_fail_from_nd(n0, state_id as int, c, f, r);
+            }
+        }
     }
 //@}
 //@loop 4{
@@ -289,8 +295,9 @@ pub assume_specification<T, U>[Option::<T>::and::<U>](a: Option<T>, b: Option<U>
         lm_inv(n0, *self, q@), bfs_inv(n0, q@, qi - 1, ps), self.states@[state_id as int].fail == sf,
         2 <= child_id < n0.states@.len(), nfa_depth(n0, child_id as int) == nfa_depth(n0, state_id as int) + 1,
         0 <= fail_id < n0.states@.len(), fail_id != 1, nfa_depth(n0, fail_id as int) < nfa_depth(n0, state_id as int),
-        fail_id == 0 || in_q(q@, fail_id as int), is_suffix(path(n0, fail_id as int), path(n0, state_id as int)),
+        fail_id == 0 || in_q(q@, fail_id as int),
         nfa_edges(n0, state_id as int).contains_key(c), nfa_edges(n0, state_id as int)[c] == child_id,
+        forall|r: int| #[trigger] nd_ok(n0, fail_id as int, c, r) ==> fail_ok(n0, child_id as int, r),
     ensures link_ok(n0, child_id as int, new_fail_id as int),
     decreases nfa_depth(n0, fail_id as int),
 //@}
@@ -298,13 +305,23 @@ pub assume_specification<T, U>[Option::<T>::and::<U>](a: Option<T>, b: Option<U>
     proof {
         lemma_lm_frame(n0, *self, q@);
         let f = fail_id as int;
-        lemma_link_root(n0, child_id as int);
-        if nfa_edges(n0, f).contains_key(c) { lemma_path_child(n0, f, c); lemma_link_child(n0, state_id as int, f, c); }
-        if f != 0 {
+        if nfa_edges(n0, f).contains_key(c) {
+            lemma_path_child(n0, f, c);
+            lemma_chase_edge(n0, f, c);
+            lemma_link_from_fail_ok(n0, child_id as int, nfa_edges(n0, f)[c] as int);
+        } else if f == 0 {
+            lemma_chase_root(n0, c);
+            lemma_link_from_fail_ok(n0, child_id as int, 0);
+        } else {
             lemma_lm_get(n0, *self, q@, f);
             let g = self.states@[f].fail as int;
-            if g >= 2 { lemma_shallow_in_q(n0, q@, qi - 1, ps, g); }
-            if g != 1 { lemma_link_trans(n0, state_id as int, f, g); }
+            if g != 1 {
+                lemma_link_facts(n0, f, g);
+                if g >= 2 { lemma_shallow_in_q(n0, q@, qi - 1, ps, g); }
+                assert forall|r: int| #[trigger] nd_ok(n0, g, c, r) implies fail_ok(n0, child_id as int, r) by {
+                    lemma_chase_step(n0, f, c, g, r);
+                }
+            }
         }
     }
 //@}
